@@ -216,7 +216,12 @@ func init() {
 	externals[sqlparserPath+".Parse"] = func(fr *frame, args []value) value {
 		text, ok := args[0].(string)
 		if !ok {
-			panic(pathAbort{"unsupported", "sqlparser.Parse on a symbolic query text (the LALR parser is not encodable)"})
+			// the LALR parser is not encodable: a symbolic query text is
+			// concretised (bounded enumeration of its bytes by the solver)
+			fr.i.ex.Assumption("symbolic query text reaching sqlparser.Parse is concretised byte by byte (bounded enumeration)")
+			return fr.concretiseStringCall(fr.i.ex.flatten(args[0]), func(s string) value {
+				return externals[sqlparserPath+".Parse"](fr, []value{s})
+			})
 		}
 		stmt, err := sqlparser.Parse(text)
 		if err != nil {
@@ -335,4 +340,39 @@ func sqlQuote(s string) string {
 	}
 	b.WriteByte('\'')
 	return b.String()
+}
+
+// nativeMySQLScan mirrors verif.MySQLScan (harness/zz_verif/tokens.go).
+func nativeMySQLScan(sql string) (class []int, typ []int, start []int, end []int, val []string) {
+	tkn := sqlparser.NewTestParser().NewStringTokenizer(sql)
+	for i := 0; i < 4096; i++ {
+		for tkn.Pos < len(sql) && (sql[tkn.Pos] == ' ' || sql[tkn.Pos] == '\n' || sql[tkn.Pos] == '\r' || sql[tkn.Pos] == '\t') {
+			tkn.Pos++
+		}
+		s := tkn.Pos
+		t, v := tkn.Scan()
+		if t == 0 {
+			break
+		}
+		c := 0
+		switch t {
+		case sqlparser.STRING:
+			c = 1
+		case sqlparser.ID:
+			c = 2
+		case sqlparser.LEX_ERROR:
+			c = 3
+		case sqlparser.INTEGRAL, sqlparser.DECIMAL, sqlparser.FLOAT:
+			c = 4
+		}
+		class = append(class, c)
+		typ = append(typ, t)
+		start = append(start, s)
+		end = append(end, tkn.Pos)
+		val = append(val, v)
+		if t == sqlparser.LEX_ERROR {
+			break
+		}
+	}
+	return
 }
